@@ -26,7 +26,11 @@ def correspond(run, corr):
 
 
 def search(run, corr, deep):
-    return wc.oracle(run, corr, deep, ID, ORACLE_PROFILES, 400, 5000)
+    found = wc.oracle(run, corr, deep, ID, ORACLE_PROFILES, 400, 5000)
+    if ID == "C03":
+        # thread schedules: one socket-thread operation racing one tick at every atomic-action boundary
+        found += wc.sched_oracle(run, corr, deep)
+    return found
 
 
 def replay(run, path):
